@@ -43,8 +43,8 @@ cfg("asyncio_t_life", "C17 thorough, lifecycle: up to 3 adapt_io per fd, drop / 
     "solo", MaxLen=3, MaxOps=3, MaxPeerOps=3, MaxAdapt=3, WithFile=True)
 cfg("asyncio_t_two", "C17 thorough, topology two: scripts of <= 4 operations per task, byte strings <= 5 bytes, B = 2, low-water 0, second adapt_io.",
     "two", MaxLen=5, MaxOps=4, MaxPeerOps=0, MaxAdapt=2)
-cfg("asyncio_t_b3", "C17 thorough, B = 3 with low-water 0 (EPOLLOUT only when the queue is empty): solo, scripts <= 4 operations, strings <= 5 bytes, peer <= 3.",
-    "solo", B=3, LW=0, MaxLen=5, MaxOps=4, MaxPeerOps=3)
+cfg("asyncio_t_b3", "C17 thorough, B = 3 with low-water 0 (EPOLLOUT only when the queue is empty): solo, scripts <= 4 operations, strings <= 5 bytes, peer <= 2.",
+    "solo", B=3, LW=0, MaxLen=5, MaxOps=4, MaxPeerOps=2)
 cfg("asyncio_t_b3n", "C17 thorough, B = 3 with the naive low-water mark 2: solo, scripts <= 4 operations, strings <= 4 bytes, peer <= 3.",
     "solo", B=3, LW=2, MaxLen=4, MaxOps=4, MaxPeerOps=3)
 # two futures on ONE adapter (fixed by 0061559: one waker per direction): the normal invariants
@@ -58,8 +58,8 @@ cfg("asyncio_t_join", "C17 thorough, topology join: scripts of <= 3 operations p
 HO = "two tasks A and B use ONE adapter one after the other: a pending operation is abandoned (future dropped) and the other task waits for the same direction"
 cfg("asyncio_q_handoff", "C17 quick, topology handoff (" + HO + "):\nscripts of <= 2 operations per task (all four kinds), one abandoned operation, chunk size 1, strings <= 2 bytes, peer scripts <= 2 operations.",
     "handoff", MaxLen=2, MaxOps=2, MaxChunk=1, MaxPeerOps=2, MaxAbandon=1, AsyncPeer=False)
-cfg("asyncio_t_handoff", "C17 thorough, topology handoff: scripts of <= 3 operations per task, one abandoned operation, chunk sizes 1..2, strings <= 2 bytes, peer <= 2 operations.",
-    "handoff", MaxLen=2, MaxOps=3, MaxChunk=2, MaxPeerOps=2, MaxAbandon=1, AsyncPeer=False)
+cfg("asyncio_t_handoff", "C17 thorough, topology handoff: scripts of <= 3 operations per task, one abandoned operation, chunk size 1, strings <= 2 bytes, peer <= 2 operations.",
+    "handoff", MaxLen=2, MaxOps=3, MaxChunk=1, MaxPeerOps=2, MaxAbandon=1, AsyncPeer=False)
 V = {"notreplaced": ("waker_not_replaced", "handoff", "Inv_C17_NeverStuck", "register_waker returns early when the direction already has a waker and keeps the stale waker of an abandoned wait"),
      "dropfd": ("drop_keeps_fd", "solo", "Inv_C17_Released", "kill() does not delete the fd from the poller (before f0ccfc5)"),
      "adaptleak": ("failed_adapt_leaks", "solo", "Inv_C17_Released", "a failing adapt_io keeps the slot and O_NONBLOCK (before ae70cc3); checked against Blocking alone in asyncio_var_adaptleak_b"),
